@@ -102,6 +102,12 @@ func refCycle(s *reportSim, trace []Address, ran []bool, canary bool) int {
 		return 0
 	}
 	count := len(s.warriors)
+	// a battle between several warriors is over once fewer than two live
+	if count > 1 {
+		if s.warriorLivingCount < 2 {
+			return s.warriorLivingCount
+		}
+	}
 	for i := 0; i < count; i++ {
 		w := s.warriors[i]
 		if w.state != WarriorAlive {
